@@ -20,6 +20,8 @@ from rules import c09
 
 TABLE = json.load(open(os.path.join(facts.VERIF, 'tables', 'c01.json')))
 UNITS = [Unit('st_pat', 'simplex_tree_pat.cpp', ['src/Simplex_tree/'], no_inst=True)]
+CONTROL_UNITS = [Unit('control', 'positive_controls.cpp', [os.path.join(facts.VERIF, 'drivers', 'positive_controls.cpp')],
+                      no_inst=True)]
 
 CREATE_CALLS = ('emplace', 'try_emplace', 'emplace_hint', 'insert')
 REG = 'update_simplex_tree_after_node_insertion'
@@ -189,6 +191,7 @@ def run(tier, replay=None):
     run_r9(chk, fns)
     run_r10(chk, fns)
     run_r15(chk, F.functions)
+    run_r15(chk, facts.extract(CONTROL_UNITS).functions, control=True)
     run_r16(chk, F.functions)
     run_r11(chk, fns)
     run_r12(chk, fns, G, access)
@@ -1299,15 +1302,17 @@ def run_r13(chk, fns):
 WHOLE_COMPLEX = ('complex_simplex_range()',)
 
 
-def run_r15(chk, F_all):
+def run_r15(chk, F_all, control=False):
     """R15 no exact dimension from a partial view: `set_dimension(d)` states that d is the exact dimension. The library
     itself calls it only with a value computed from the whole tree (an expression mentioning the current bound:
     `dimension()`, `upper_bound_dimension()`, `dimension_`) - never with what one input (a stream, a range) happened to
     contain: the tree may hold larger simplices already (operator>> lowered the dimension of a non-empty tree:
     empty stars, an out-of-bounds write in num_simplices_by_dimension)."""
     n = 0
+    fired = []
     for f in F_all:
-        if f.get('body') is None or f.get('inst') not in (0, 2) or '/Simplex_tree/' not in f['file']:
+        if f.get('body') is None or f.get('inst') not in (0, 2) or \
+                (('/Simplex_tree/' not in f['file']) if not control else not f['file'].endswith('positive_controls.cpp')):
             continue
         for x in ir.walk(f['body']):
             if not (ir.is_call(x) and ir.call_name(x) == 'set_dimension' and ir.call_args(x)):
@@ -1315,11 +1320,20 @@ def run_r15(chk, F_all):
             n += 1
             t = ir.show(ir.call_args(x)[0])
             ok = any(w in t for w in ('dimension()', 'upper_bound_dimension()', 'dimension_'))
+            if control:
+                if not ok:
+                    fired.append(x)
+                continue
             chk.ob('R15-exact-dimension', '%s: the exact dimension it sets is computed from the current one' % f['name'],
                    '%s:%s' % (rel(f['file']), x.get('l')), ok,
                    '' if ok else '`%s`: the value comes from one input only, a tree that already holds larger simplices '
                    'gets a dimension below them (and the pending recomputation is switched off)' % ir.show(x)[:60],
                    key='R15|%s|exact-dimension' % f['name'])
+    if control:
+        if not fired:
+            raise AnalysisBroken('C01: R15 stays silent on its positive control (drivers/positive_controls.cpp)')
+        chk.count('R15 positive control reports', len(fired))
+        return
     chk.count('calls of set_dimension inside the library', n)
 
 
